@@ -177,8 +177,9 @@ CertsOK(t) ==
 
 \* the flat problem (M, cfg) as a layout tree, and the translation between the two result encodings
 FlatTree(M, cfg) == [kind |-> "list", ordered |-> cfg.ordered, pc |-> cfg.pc,
-                     gm |-> [i \in 1..Len(M[1]) |-> <<i>>],
-                     cells |-> [a \in 1..Len(M) |-> [i \in 1..Len(M[a]) |-> [j \in 1..Len(M[a]) |-> [kind |-> "leaf", alts |-> <<M[a][i][j]>>]]]],
+                     gm |-> TLCEval([i \in 1..Len(M[1]) |-> <<i>>]),
+                     cells |-> TLCEval([a \in 1..Len(M) |-> TLCEval([i \in 1..Len(M[a]) |-> TLCEval([j \in 1..Len(M[a]) |->
+                                  [kind |-> "leaf", alts |-> <<M[a][i][j]>>]])])]),
                      cert |-> <<>>]
 EntryOfPath(e) == Entry(e.path[1], e.path[2], e.g)
 =============================================================================
